@@ -98,11 +98,13 @@ def run(ch, params, decoded=False):
                     if str(out) != fresh:
                         problem = ("OUTPUT", f"component render {str(out)!r} != fresh compile {fresh!r}")
                     outs.append(str(out))
-                    # the Template object the component used is now the cached one for that key
-                    cur = djc_cache.get_template_cache().cache.get(
-                        ("django.template.base.Template", source(si), None))
-                    if cur is not None:
-                        last[key] = cur.value
+                    # the Template object the component used is now the cached one for that key: fetch it through the
+                    # public function (a get() in the reference model too; with size 0 nothing is resident)
+                    resident = ref.get(key) is not None
+                    tpl2 = cached_template(source(si))
+                    if not resident:
+                        ref.set(key, 1)
+                    last[key] = tpl2
                 elif op[0] == "bad_compile":
                     ref.get((0, "bad", 0))
                     try:
@@ -123,7 +125,7 @@ def run(ch, params, decoded=False):
                 wf = world.lru_wellformed(cache)
                 if wf:
                     problem = ("STRUCTURE", wf)
-                elif len(cache.cache) != len(ref.d):
+                elif hasattr(cache, "cache") and len(cache.cache) != len(ref.d):
                     problem = ("RESIDENCY", f"{len(cache.cache)} entries cached, reference LRU holds {len(ref.d)}")
             if problem:
                 violations.append({"class": problem[0], "fingerprint": [op[0], problem[0]],
